@@ -1074,11 +1074,26 @@ func init() {
 		},
 		"(*encoding/base64.Encoding).EncodeToString": func(fr *frame, args []value) value {
 			if !allConcrete(args[1:]) {
-				return notHandled
+				// keep the encoding unrendered: decoding it again (the
+				// only thing gittuf does with envelope payloads and
+				// signatures) returns the source bytes without a solver
+				src := append([]value(nil), args[1].([]value)...)
+				enc := fr.b64(args[0])
+				recv := args[0]
+				fn := fr.fn
+				return &symStr{opaque: "base64(symbolic bytes)", b64src: src, b64enc: enc, lazy: func() []value {
+					r := fr.i.interpretBody(fr, fn, []value{recv, src})
+					return strElems(r)
+				}}
 			}
 			return fr.b64(args[0]).EncodeToString(hostBytes(args[1]))
 		},
 		"(*encoding/base64.Encoding).DecodeString": func(fr *frame, args []value) value {
+			if ss, isSym := args[1].(*symStr); isSym && ss.b64src != nil && ss.lazy != nil {
+				if ss.b64enc == fr.b64(args[0]) {
+					return tuple{append([]value(nil), ss.b64src...), iface{}}
+				}
+			}
 			s, ok := args[1].(string)
 			if !ok {
 				return notHandled
